@@ -1,9 +1,10 @@
 #!/bin/bash
-# tools/runall.sh [quick|thorough]  -- every check once, one line each
-tier=${1:-quick}
+# tools/runall.sh [quick|thorough] [ID ...]  -- every (or the named) check once, one line each
+tier=${1:-quick}; shift
+ids=${@:-C01 C02 C03 C04 C05 C06 C07 C08 C09 C10 C11 C12 C13 C14 C15 C16 C17 C18 C19}
 cd "$(dirname "$0")/.."
-for p in C01 C02 C03 C04 C05 C06 C07 C08 C09 C10 C11 C12 C13 C14 C15 C16 C17 C18 C19; do
+for p in $ids; do
   s=$(date +%s)
   line=$(./check $p --tier $tier 2>&1 | tail -1)
-  echo "$line  [rc=${PIPESTATUS[0]} $(( $(date +%s) - s ))s]"
+  echo "$line  [$(( $(date +%s) - s ))s]"
 done
